@@ -56,6 +56,19 @@ static string Dump(State& st) {
   for (size_t i = 0; i < st.defaults_.size(); ++i) o += (i ? " " : " ") + st.defaults_[i]->path();
   if (st.defaults_.empty()) o += " ";
   o += "\n";
+  {
+    // what a plain `ninja` builds: the default statements, else every output that no statement names as an input
+    string err;
+    vector<Node*> dn = st.DefaultNodes(&err);
+    vector<string> names;
+    for (Node* n : dn) names.push_back(n->path());
+    sort(names.begin(), names.end());
+    names.erase(unique(names.begin(), names.end()), names.end());
+    o += "builds-by-default";
+    if (!err.empty()) o += " !none";
+    else for (auto& n : names) o += " " + n;
+    o += "\n";
+  }
   for (Edge* e : st.edges_) {
     size_t nout = e->outputs_.size() - e->implicit_outs_;
     size_t nin = e->inputs_.size() - e->implicit_deps_ - e->order_only_deps_;
